@@ -88,6 +88,7 @@ int Model::expect(const Op &o) const {
             return 0;
         }
         case OP_ANNO: return signals.count(o.sig) ? 0 : 1;
+        case OP_USER: return o.en ? 1 : 0;      // en: NULL data with a non-zero size must be refused
         default: return 0;
     }
 }
